@@ -157,6 +157,16 @@ theorem vec_roundtrip {α : Type} (c : Codec α) (wf : α → Prop) (h : RTon c 
 
 theorem emptyMap_roundtrip : RTon cEmptyMap (fun _ => True) := emptyMap_rt
 
+/-- the transparent wrappers and the numeric wrappers (values built through the checked constructors) -/
+theorem bytes_roundtrip : RTon cBytes (fun b => b.length < 2 ^ 64) := bytes_rt
+theorem int_roundtrip : RTon cInt (fun i => -(2 ^ 64 : Int) ≤ i ∧ i < 2 ^ 64) := int_rt
+theorem positiveCoin_roundtrip : RTon cPositiveCoin (fun n => n ≠ 0 ∧ n < 2 ^ 64) := positiveCoin_rt
+theorem nonZeroInt_roundtrip : RTon cNonZeroInt (fun i => i ≠ 0 ∧ -(2 ^ 63 : Int) ≤ i ∧ i < 2 ^ 63) := nonZeroInt_rt
+
+/-- an enum whose codec `codec_by_datatype!` generates (the harness enum `Thing`, variants with
+    disjoint datatypes and a many-field variant) round-trips -/
+theorem codec_by_datatype_enum_roundtrip : RTon ⟨Thing.enc, Thing.dec⟩ Thing.wf := thing_rt
+
 /-! ## the hypotheses are inhabited: the wrappers compose (depth 3 shown) -/
 
 /-- `AnyUInt` is a good sequence element: round trip, and never starts with the break byte -/
